@@ -113,7 +113,11 @@ CLAIMS = {
         technique='Coq: lookup theorem independent of the pinned snapshot + listing theorem (+ refuted stale variant) + multi-handle histories',
         text=('PROOF (Coq, closed): C08_lookup_with_any_pinned_snapshot (no relation needed between the handle\'s snapshot and the world in which the '
               'object was acknowledged), C08_listing_complete / C08_listing_once for the repaired list_all_objects (loose listed first, snapshot '
-              'refreshed afterwards), C08_stale_listing_refuted (witness of finding F4, fixed). TIE: 370 (thorough 6000) sequential histories over 2-4 '
+              'refreshed afterwards), C08_stale_listing_refuted (witness of finding F4, fixed); for the BULK entry points the generator itself is a Gallina '
+              'function (Lookup.lookup_bulk): C08_bulk_lookup_reports_every_acknowledged_object (any pinned snapshot, any thresholds/strategy, any '
+              'request: every object stored before the call looked at the loose folder is reported exactly once, never MISSING, with the length of '
+              'its content) and C08_bulk_lookup_reports_only_what_is_there. TIE: the extracted lookup_bulk reproduces the generator\'s answers on '
+              'requests through handles with stale snapshots (every run); 370 (thorough 6000) sequential histories over 2-4 '
               'handles incl. 70 fixed ones placing a snapshot-pinning query before another handle packs and cleans; writer/packer traces pass the '
               'Mono side-condition checker. PARTIAL: SQLAlchemy session behaviour is abstracted to "snapshot pinned at first statement until reset".'),
         design='4/C08'),
@@ -201,17 +205,25 @@ CLAIMS = {
               'per-entry / atomic copies, not verified.'),
         design='4/C15'),
     'C16': dict(
-        technique='Coq proof of the merge/chunk/paging helpers (induction) + differential correspondence model<->code',
+        technique='Coq proof of the merge/chunk/paging helpers (induction) and of the bulk lookup generator as a Gallina model (bulk answer = per-key answer for all requests, thresholds, snapshots) + differential correspondence model<->code',
         text=('PROOF (Coq, closed): Merge.dws is a line-by-line state-machine model of utils.detect_where_sorted (with left_key); proved for all '
               'inputs: on sorted unique inputs it terminates with exactly merge_spec (C16_dws_spec), merge_spec is exactly set-membership '
               'classification with the left element on BOTH and every key once in order (C16_merge_spec_in/_once), every unsorted or '
               'non-unique input ends in ValueError (C16_dws_rejects), fuel never runs out (C16_dws_terminates); chunk_iterator '
               '(C16_chunks) and the id>last_pk paging loop (C16_paging) lose/duplicate nothing for every n>=1; constants from the AST '
-              '(C16_constants). TIE: the extracted model and the implementation are run on all 4096 pairs of sorted subsets of a '
-              '6-universe, all short unsorted sides, random long pairs, and a second vm_compute route without extraction. '
-              'PARTIAL: the bulk-API half (has/meta/content/stream, pack_all_loose, clean_storage, import at both strategies and at '
-              'the real 950/9500/1000 thresholds and lowered ones) is decided by differential testing against a dict and the '
-              'single-key operations, not yet by a theorem over a Gallina lookup program.'),
+              '(C16_constants). The generator behind has_objects / get_objects_meta / get_objects_content / get_objects_stream_and_meta is the Gallina '
+              'function Lookup.lookup_bulk (chunked IN-queries or the ordered scan merged by Merge.dws, chosen by the count; grouping per pack in '
+              'offset order; loose folder; refreshed index; MISSING / skip_if_missing): C16_bulk_lookup_is_map_single (for ALL thresholds with a '
+              'positive batch size, index snapshots, loose folders and duplicate-free enumerations of the request the answer is a permutation of '
+              'the per-key answers, no key twice, the merge never rejects), C16_bulk_lookup_strategy_independent, C16_bulk_lookup_any_request (any '
+              'order and repetitions), C16_bulk_lookup_runs (one run per pack, in offset order). TIE: the extracted helpers and the '
+              'implementation are run on all 4096 pairs of sorted subsets of a 6-universe, all short unsorted sides, random long pairs, and a '
+              'second vm_compute route without extraction; the extracted lookup_bulk is run on what the implementation observes (the index through '
+              'the reader\'s own - possibly stale - session, the loose folder, the committed index) for 54+ requests per run at thresholds '
+              '(1,3)..(4,4) and the real ones, meta and stream entry points, and must give the generator\'s answers field by field. '
+              'PARTIAL: pack_all_loose, clean_storage and import at both strategies and at the real 950/9500/1000 thresholds and lowered ones '
+              'are decided by differential testing against a dict and the single-key operations (their sorted-merge core is proved); set '
+              'iteration orders are not modelled (answers compared as runs per pack / sets).'),
         design='4/C16'),
     'C17': dict(
         technique='Coq: fault = program prefix + handler events, proved safe for all inputs, fault points and handler sequences; verified monitor on fault traces; single fault at every gated call with rerun',
@@ -283,7 +295,7 @@ def main():
         'notes': 'See DESIGN.md. known_findings.json lists genuine defects found (fixed ones suppress nothing).',
     }
     if not na:
-        del m['not_applicable']
+        m['not_applicable'] = []
     with open(os.path.join(VERIF, 'MANIFEST.json'), 'w') as f:
         json.dump(m, f, indent=1)
     print('MANIFEST.json written:', len(checks), 'checks,', len(na), 'not claimed')
